@@ -277,3 +277,30 @@ def oracle_alt_keys(num, skip, flat):
         pos = [s] + ks
         keys.add((nk(2 * A, s, e), p, tuple(nk(num.sym(X), pos[m], pos[m + 1]) for m, X in enumerate(rhs))))
     return keys
+
+
+def enc_ggrammar(num, kw_corr=4):
+    """Grammar with the attributes table construction and action sorting consult."""
+    from parglare.grammar import StringRecognizer, RegExRecognizer
+    g = num.grammar
+    out = [len(num.nts), len(g.productions)]
+    for p in g.productions:
+        if p.prod_id == 0:
+            rhs = [g.productions[1].symbol, STOP]
+        else:
+            rhs = rhs_of(p)
+        out += [num.nt(p.symbol), len(rhs)] + [num.sym(s) for s in rhs]
+        out += [int(p.prior), int(p.assoc), 1 if p.nops else 0, 1 if p.nopse else 0]
+    out.append(len(num.terms))
+    for t in num.terms:
+        rec = t.recognizer
+        weight = 0
+        if type(rec) is StringRecognizer:
+            weight = len(rec.value)
+        elif type(rec) is RegExRecognizer and t.keyword:
+            weight = len(rec._regex) - kw_corr
+        strlike = type(rec) is StringRecognizer or bool(t.keyword)
+        fin = 0 if t.finish is None else (1 if t.finish else 2)
+        fqn = [ord(c) for c in t.fqn]
+        out += [int(t.prior), weight, 1 if strlike else 0, fin, len(fqn)] + fqn
+    return out
